@@ -151,6 +151,55 @@ theorem heightCheck_ok_iff (b : Builder) (level nproc : Nat) (hm : 0 < b.maxLeve
       · simp [hh] <;> omega
       · simp [hh] <;> omega
 
+/-- **An accepted leaf never takes the tree beyond the configured maximum level**: if the
+builder has a maximum and `addLeaf` accepts, then closing the builder yields a root whose
+level is exactly what `calculateHighestLevel` predicted and hence at most the maximum — for
+every stack, every leaf level and every leaf processor that raises the level as
+`levelWithOverhead` assumes (`prep = .ok`, `nproc = 0` for the plain tree builder).  With
+`heightCheck_ok_iff` (refused exactly when the predicted level exceeds the maximum) the
+pre-check is neither too lax nor too strict. -/
+theorem accepted_leaf_root_within_max (H : HashFn) (algo : Nat) (b b' : Builder) (c : Content) (level nproc : Nat)
+    (prep : Node → Except Nat Node) (hm : 0 < b.maxLevel)
+    (hprep : ∀ n', prep (.leaf (some b.count) c level) = .ok n' → levelWithOverhead level nproc = .ok n'.level)
+    (h : b.addLeaf H algo c level nproc prep = .ok b') (root : Node) (hc : close H algo b'.stack = .ok root) :
+    root.level ≤ b.maxLevel ∧ b'.maxLevel = b.maxLevel := by
+  unfold Builder.addLeaf at h
+  split at h
+  · cases h
+  · split at h
+    · cases h
+    · rename_i hcheck
+      obtain ⟨_, actual, hlo, hle⟩ := (heightCheck_ok_iff b level nproc hm).mp hcheck
+      split at h
+      · cases h
+      · rename_i n hp
+        have hn := hprep n hp
+        rw [hlo] at hn
+        simp only [Except.ok.injEq] at hn
+        split at h
+        · cases h
+        · rename_i st hins
+          simp only [Except.ok.injEq] at h
+          subst h
+          refine ⟨?_, rfl⟩
+          unfold close at hc
+          simp only at hc
+          split at hc
+          · cases hc
+          · cases hc
+          · rename_i r hcf
+            simp only [Except.ok.injEq] at hc
+            subst hc
+            rw [insert_close_level H algo b.stack n st r hins hcf, ← hn]
+            exact hle
+
+/-- the plain tree builder (no leaf processors) -/
+theorem treeBuilder_root_within_max (H : HashFn) (algo : Nat) (b b' : Builder) (c : Content) (level : Nat)
+    (hm : 0 < b.maxLevel) (h : b.addLeaf H algo c level 0 .ok = .ok b') (root : Node)
+    (hc : close H algo b'.stack = .ok root) : root.level ≤ b.maxLevel :=
+  (accepted_leaf_root_within_max H algo b b' c level 0 .ok hm
+    (by intro n' hn; simp only [Except.ok.injEq] at hn; subst hn; rfl) h root hc).1
+
 /-! Non-vacuity: three leaves through a toy hash function. -/
 def toyH : HashFn := fun _ m => some [UInt8.ofNat m.length]
 example : ∃ b1 b2 b3 root,
@@ -159,5 +208,16 @@ example : ∃ b1 b2 b3 root,
     b2.addLeaf toyH 1 (.hash [1, 9]) 3 0 .ok = .ok b3 ∧
     close toyH 1 b3.stack = .ok root ∧ root.level = 4 ∧ (chains root).length = 3 := by
   refine ⟨_, _, _, _, rfl, rfl, rfl, rfl, ?_, ?_⟩ <;> decide
+
+/-- …and with a maximum of 4 the same third leaf is accepted (root level 4 = the maximum),
+while with a maximum of 3 it is refused. -/
+example : ∃ b1 b2 b3 root,
+    ({ maxLevel := 4 } : Builder).addLeaf toyH 1 (.hash [1, 7]) 0 0 .ok = .ok b1 ∧
+    b1.addLeaf toyH 1 (.hash [1, 8]) 0 0 .ok = .ok b2 ∧
+    b2.addLeaf toyH 1 (.hash [1, 9]) 3 0 .ok = .ok b3 ∧
+    close toyH 1 b3.stack = .ok root ∧ root.level = 4 ∧
+    ({ b2 with maxLevel := 3 } : Builder).addLeaf toyH 1 (.hash [1, 9]) 3 0 .ok = .error St.BUFFER_OVERFLOW := by
+  refine ⟨_, _, _, _, rfl, rfl, rfl, rfl, ?_, rfl⟩
+  decide
 
 end KsiVerif.Props.C16
